@@ -144,8 +144,20 @@ partial def go (enc : String) (steps res : List String) (k : Nat) (pool : List (
       if !ok then f := f ++ [s!"violation step {k} loading into an existing automaton: language is not L(old) ∪ L(loaded): {showTA D}"]
       pool' := pool.set ix (some D)
       touched := some ix
-    | "union" =>
+    | "union" | "unionpre" =>
       let A ← ent 1; let B ← ent 2; let D ← newDump
+      if op == "unionpre" then
+        -- caller-supplied pre-filled maps: injective with disjoint images (what a caller chaining unions supplies)
+        let preL ← getE (parts[3]? >>= parseMap?) "bad pre-filled ml"
+        let preR ← getE (parts[4]? >>= parseMap?) "bad pre-filled mr"
+        let vals := preL.map (·.2) ++ preR.map (·.2)
+        if vals.eraseDups.length != vals.length then throw "precondition: pre-filled maps not injective with disjoint images"
+        match (kv res s!"ml{k}") >>= parseMap?, (kv res s!"mr{k}") >>= parseMap? with
+        | some ml, some mr =>
+          if !(preL.all (fun e => ml.contains e) && preR.all (fun e => mr.contains e)) && !(ml.isEmpty && mr.isEmpty) then
+            f := f ++ [s!"violation step {k} union changed an entry of a pre-filled translation map"]
+        | _, _ => pure ()
+        tags := tags ++ ["unionpre=1"]
       if !(← getE (isUnionM D A B FUEL) "fuel") then f := f ++ [s!"violation step {k} union-language {showTA D}"]
       -- the result is the union of the images of the operands under the two reported maps (`absBU_union`, `absTD_union`,
       -- `unionModel_lang`): states the maps do not mention keep their numbers (shared-table branch: both maps empty)
@@ -210,7 +222,7 @@ partial def go (enc : String) (steps res : List String) (k : Nat) (pool : List (
       -- the bottom-up traversal AS CODED (`Vata/BddTrimCodedBU.lean`, `C08_bu_unreach_coded_lang`; fuel above the proved bound)
       if enc != "td" then
         let T0 := Vata.BddAbs.ofRules A.rules
-        match Vata.BddTrimCoded.buUnreachCoded T0 A.final (Vata.BddTrimCoded.leafCount T0 + 1) with
+        match Vata.BddTrimCoded.buUnreachCoded T0 (dedupL A.final) (Vata.BddTrimCoded.leafCount T0 + 1) with
         | some r =>
           let Mc : TA := ⟨Vata.BddAbs.absRules symsA r.1, r.2⟩
           if f.isEmpty && !(taEq ⟨dedupRulesB Mc.rules, Mc.final⟩ ⟨dedupRulesB D.rules, D.final⟩) then
@@ -233,12 +245,14 @@ partial def go (enc : String) (steps res : List String) (k : Nat) (pool : List (
       -- the AND/OR graph of the top-down encoding and the graph traversal of the bottom-up one AS CODED
       -- (`Vata/BddTrimCoded.lean`, `Vata/BddTrimCodedBU.lean`; `C08_td_useless_coded_lang`, `C08_bu_useless_coded_lang`; fuel above the proved bounds)
       let Mc? : Option TA := if enc == "td" then
+          -- `GetFinalStates()` is a set in the C++: the coded model (and its theorem, hypothesis `F.Nodup`) takes a duplicate-free list
           let T0 := Vata.BddAbsTD.ofRulesTD A.rules
-          let n := A.final.length + (Vata.BddAbsTD.allKids T0).length
-          (Vata.BddTrimCoded.removeUselessTDCoded T0 A.final (2 * n + 2) (n + 1)).map (fun r => ⟨Vata.BddAbsTD.absRulesTD symsA r.1, r.2⟩)
+          let F0 := dedupL A.final
+          let n := F0.length + (Vata.BddAbsTD.allKids T0).length
+          (Vata.BddTrimCoded.removeUselessTDCoded T0 F0 (2 * n + 2) (n + 1)).map (fun r => ⟨Vata.BddAbsTD.absRulesTD symsA r.1, r.2⟩)
         else
           let T0 := Vata.BddAbs.ofRules A.rules
-          (Vata.BddTrimCoded.buUselessCoded T0 A.final (A.final.length + Vata.BddTrimCoded.leafCount T0 + 1)).map
+          (Vata.BddTrimCoded.buUselessCoded T0 (dedupL A.final) (A.final.length + Vata.BddTrimCoded.leafCount T0 + 1)).map
             (fun r => ⟨Vata.BddAbs.absRules symsA r.1, r.2⟩)
       match Mc? with
       | some Mc =>
